@@ -5,12 +5,12 @@ func init() {
 	control(&Control{ID: "escapeset-del", Rule: "ESCAPE-SET", File: "larking/grpc.go",
 		Old: "if c < ' ' || c > '~' || c == '%' {", New: "if c < ' ' || c > 0x7f || c == '%' {", Expect: "escape-set", Why: "DEL (0x7f) written raw into grpc-message"})
 	control(&Control{ID: "fwderrprompt-wait-first", Rule: "FWD-ERR-PROMPT", File: "larking/mux.go",
-		Old: "\t\t\tif isStreamError(outErr) {\n\t\t\t\treturn outErr\n\t\t\t}\n\t\t\tif sd.ClientStreams {\n\t\t\t\twg.Wait()\n",
-		New: "\t\t\tif sd.ClientStreams {\n\t\t\t\twg.Wait()\n\t\t\t}\n\t\t\tif isStreamError(outErr) {\n\t\t\t\treturn outErr\n\t\t\t}\n\t\t\tif sd.ClientStreams {\n",
+		Old:    "\t\t\tif isStreamError(outErr) {\n\t\t\t\treturn outErr\n\t\t\t}\n\t\t\tif sd.ClientStreams {\n\t\t\t\twg.Wait()\n",
+		New:    "\t\t\tif sd.ClientStreams {\n\t\t\t\twg.Wait()\n\t\t\t}\n\t\t\tif isStreamError(outErr) {\n\t\t\t\treturn outErr\n\t\t\t}\n\t\t\tif sd.ClientStreams {\n",
 		Expect: "backend-error-before-join", Why: "the pump is joined before the backend's error is returned"})
 	control(&Control{ID: "slicecap-no-guard", Rule: "SLICE-CAP", File: "larking/grpc.go",
-		Old: "\tif cap(b) < 5 {\n\t\tb = make([]byte, 0, growcap(cap(b), 5))\n\t}\n\tb = b[:5] // 1 byte compression flag, 4 bytes message length\n\n\tif _, err := io.ReadFull(s.r, b); err != nil {",
-		New: "\tb = b[:5] // 1 byte compression flag, 4 bytes message length\n\n\tif _, err := io.ReadFull(s.r, b); err != nil {",
+		Old:    "\tif cap(b) < 5 {\n\t\tb = make([]byte, 0, growcap(cap(b), 5))\n\t}\n\tb = b[:5] // 1 byte compression flag, 4 bytes message length\n\n\tif _, err := io.ReadFull(s.r, b); err != nil {",
+		New:    "\tb = b[:5] // 1 byte compression flag, 4 bytes message length\n\n\tif _, err := io.ReadFull(s.r, b); err != nil {",
 		Expect: "RecvMsg/reslice", Why: "pooled buffer re-sliced to the header length without a capacity guard"})
 	control(&Control{ID: "readfulleof-restore", Rule: "READFULL-EOF", File: "larking/grpc.go",
 		Old: "\t\tif err == io.EOF {\n\t\t\t// The stream ended after the frame header.\n\t\t\terr = io.ErrUnexpectedEOF\n\t\t}\n", New: "",
@@ -18,23 +18,23 @@ func init() {
 	control(&Control{ID: "timeoutdigits-base0", Rule: "TIMEOUT-DIGITS", File: "larking/grpc.go",
 		Old: "strconv.ParseUint(s[:size-1], 10, 63)", New: "strconv.ParseUint(s[:size-1], 0, 63)", Expect: "decodeTimeout/base", Why: "radix inferred from a prefix"})
 	control(&Control{ID: "timeoutdigits-signed", Rule: "TIMEOUT-DIGITS", File: "larking/grpc.go",
-		Old: "\tt, err := strconv.ParseUint(s[:size-1], 10, 63)\n\tif err != nil {\n\t\treturn 0, err\n\t}\n\tconst maxHours = math.MaxInt64 / uint64(time.Hour)",
-		New: "\tt, err := strconv.ParseInt(s[:size-1], 10, 64)\n\tif err != nil {\n\t\treturn 0, err\n\t}\n\tconst maxHours = math.MaxInt64 / int64(time.Hour)",
+		Old:    "\tt, err := strconv.ParseUint(s[:size-1], 10, 63)\n\tif err != nil {\n\t\treturn 0, err\n\t}\n\tconst maxHours = math.MaxInt64 / uint64(time.Hour)",
+		New:    "\tt, err := strconv.ParseInt(s[:size-1], 10, 64)\n\tif err != nil {\n\t\treturn 0, err\n\t}\n\tconst maxHours = math.MaxInt64 / int64(time.Hour)",
 		Expect: "decodeTimeout/unsigned", Why: "restore D38: signed timeouts accepted"})
 	control(&Control{ID: "storedslice-reuse", Rule: "STORED-SLICE-REUSE", File: "larking/mux.go",
-		Old: "\tfor _, hd := range cl.handlers {\n\t\tname := hd.method\n\n\t\tvar hds []*handler\n",
-		New: "\tvar hds []*handler\n\tfor _, hd := range cl.handlers {\n\t\tname := hd.method\n\n\t\thds = hds[:0]\n",
+		Old:    "\tfor _, hd := range cl.handlers {\n\t\tname := hd.method\n\n\t\tvar hds []*handler\n",
+		New:    "\tvar hds []*handler\n\tfor _, hd := range cl.handlers {\n\t\tname := hd.method\n\n\t\thds = hds[:0]\n",
 		Expect: "removeHandler/stored", Why: "one scratch slice reused for every method's surviving handlers"})
 	control(&Control{ID: "cow5-inplace-filter", Rule: "COW-5", File: "larking/mux.go",
 		Old: "\t\tvar hds []*handler\n", New: "\t\thds := s.handlers[name][:0]\n",
 		Expect: "state).clone/shares:state.handlers[]", Why: "removeHandler filters the shared per-method slice in place"})
 	control(&Control{ID: "cow5-bulk-copy", Rule: "COW-5", File: "larking/rules.go",
-		Old: "\tfor i, v := range p.variables {\n\t\tpc.variables[i] = &variable{\n\t\t\tname: v.name, // RO\n\t\t\ttoks: v.toks, // RO\n\t\t\tnext: v.next.clone(),\n\t\t}\n\t}",
-		New: "\tcopy(pc.variables, p.variables)",
+		Old:    "\tfor i, v := range p.variables {\n\t\tpc.variables[i] = &variable{\n\t\t\tname: v.name, // RO\n\t\t\ttoks: v.toks, // RO\n\t\t\tnext: v.next.clone(),\n\t\t}\n\t}",
+		New:    "\tcopy(pc.variables, p.variables)",
 		Expect: "bulk-copy", Why: "path.clone copies the variable pointers (shares every subtree below a variable)"})
 	control(&Control{ID: "webtrailer-trim-first", Rule: "WEB-TRAILER-FRAME", File: "larking/web.go",
-		Old: "\t\tif w.seenHeaders[key] {\n\t\t\tcontinue\n\t\t}\n\t\tkey = strings.TrimPrefix(key, http.TrailerPrefix)\n",
-		New: "\t\tkey = strings.TrimPrefix(key, http.TrailerPrefix)\n\t\tif w.seenHeaders[key] {\n\t\t\tcontinue\n\t\t}\n",
+		Old:    "\t\tif w.seenHeaders[key] {\n\t\t\tcontinue\n\t\t}\n\t\tkey = strings.TrimPrefix(key, http.TrailerPrefix)\n",
+		New:    "\t\tkey = strings.TrimPrefix(key, http.TrailerPrefix)\n\t\tif w.seenHeaders[key] {\n\t\t\tcontinue\n\t\t}\n",
 		Expect: "seen-test-on-raw-key", Why: "a trailer named like a sent header is dropped from the gRPC-web frame"})
 	control(&Control{ID: "nilable-comp", Rule: "NILABLE-FIELD", File: "larking/grpc.go",
 		Old: "\t\tif s.comp != nil {\n\t\t\tout.Compression = s.comp.Name()", New: "\t\tif s.messageEncoding != \"\" {\n\t\t\tout.Compression = s.comp.Name()",
@@ -42,8 +42,8 @@ func init() {
 	control(&Control{ID: "selcollect-deepest-only", Rule: "SEL-COLLECT", File: "larking/mux.go",
 		Old: "return append(rules, r.getRules(name)...)", New: "return r.getRules(name)", Expect: "collects-every-level", Why: "only the deepest selector node's rules are returned"})
 	control(&Control{ID: "lastwriter-skip-default", Rule: "LAST-WRITER", File: "larking/rules.go",
-		Old: "\t\t\t\tdefault:\n\t\t\t\t\tcur.Set(fd, p.val)\n",
-		New: "\t\t\t\tdefault:\n\t\t\t\t\tif !fd.HasPresence() && p.val.Equal(fd.Default()) {\n\t\t\t\t\t\tbreak\n\t\t\t\t\t}\n\t\t\t\t\tcur.Set(fd, p.val)\n",
+		Old:    "\t\t\t\tdefault:\n\t\t\t\t\tcur.Set(fd, p.val)\n",
+		New:    "\t\t\t\tdefault:\n\t\t\t\t\tif !fd.HasPresence() && p.val.Equal(fd.Default()) {\n\t\t\t\t\t\tbreak\n\t\t\t\t\t}\n\t\t\t\t\tcur.Set(fd, p.val)\n",
 		Expect: "set-on-every-path", Why: "a zero-valued path capture does not overwrite the query/body value"})
 }
 
@@ -52,4 +52,37 @@ func init() {
 		Old: "\t\t\tfd = fieldOf(cur, fd)\n", New: "", Expect: "(params).set/", Why: "restore D39: stored descriptors applied directly to the picked handler's message"})
 	control(&Control{ID: "slicecap-var-bound", Rule: "SLICE-CAP", File: "larking/codec.go",
 		Old: "\t\tif cap(b) < n {\n\t\t\tdst := make([]byte, len(b), growcap(cap(b), n))", New: "\t\tif cap(b) < n-1 {\n\t\t\tdst := make([]byte, len(b), growcap(cap(b), n-1))", Expect: "ReadNext/extend", Why: "capacity established for another bound than the one sliced to"})
+}
+
+// Controls for the rules added after the second round of seeded changes.
+func init() {
+	control(&Control{ID: "pathnorm-tolower", Rule: "PATH-NORMALISE", File: "larking/mux.go",
+		Old: "r.URL.Path = strings.TrimSuffix(r.URL.Path, \"/\")", New: "r.URL.Path = strings.ToLower(strings.TrimSuffix(r.URL.Path, \"/\"))", Expect: "URL.Path-rewrite", Why: "request path case-folded before matching"})
+	control(&Control{ID: "pathsource-requesturi", Rule: "PATH-SOURCE", File: "larking/grpc.go",
+		Old: "\tmethod := r.URL.Path\n", New: "\tmethod := r.RequestURI\n", Expect: "serveGRPC/method-name", Why: "gRPC method looked up by the un-stripped request URI"})
+	control(&Control{ID: "poolforeign-alias-reply", Rule: "POOL-FOREIGN", File: "larking/http.go",
+		Old: "b = append(b, pData.Bytes()...)", New: "b = pData.Bytes()", Expect: "SendMsg/returned-to-pool", Why: "the reply's own bytes are put into the pool"})
+	control(&Control{ID: "closeonce-return-close", Rule: "CLOSE-ONCE", File: "larking/grpc.go",
+		Old: "\tif _, err := w.Write(b); err != nil {\n\t\treturn err\n\t}\n\treturn nil\n}", New: "\tif _, err := w.Write(b); err != nil {\n\t\treturn err\n\t}\n\treturn w.Close()\n}", Expect: "compress/writer-closed-once", Why: "writer closed explicitly and again by the defer"})
+	control(&Control{ID: "delrule-prune-always", Rule: "DELRULE-GUARD", File: "larking/rules.go",
+		Old:    "\t\tif ok := s.delRule(name); ok {\n\t\t\tif !s.alive() {\n\t\t\t\tdelete(p.segments, k)\n\t\t\t}\n\t\t\treturn ok\n\t\t}",
+		New:    "\t\tok := s.delRule(name)\n\t\tif !s.alive() {\n\t\t\tdelete(p.segments, k)\n\t\t}\n\t\tif ok {\n\t\t\treturn ok\n\t\t}",
+		Expect: "prune:path.segments", Why: "dead-looking siblings pruned while walking past them"})
+	control(&Control{ID: "binpadding-trimsuffix", Rule: "BIN-PADDING", File: "larking/grpc.go",
+		Old: "b, err = base64.StdEncoding.DecodeString(v)", New: "b, err = base64.RawStdEncoding.DecodeString(strings.TrimSuffix(v, \"=\"))", Expect: "padded-and-unpadded", Why: "only one '=' of the padding is stripped"})
+	control(&Control{ID: "timeoutclamp-after-multiply", Rule: "TIMEOUT-CLAMP", File: "larking/grpc.go",
+		Old: "\tif d == time.Hour && t > maxHours {", New: "\tif d == time.Hour && d*time.Duration(t) < 0 {", Expect: "overflow-guard", Why: "overflow tested after the multiplication"})
+	control(&Control{ID: "statspayload-skip-empty", Rule: "STATS-PAYLOAD-EACH", File: "larking/grpc.go",
+		Old:    "\tif stats := s.opts.statsHandler; stats != nil {\n\t\t// TODO: raw payload stats.\n\t\tb := b[headerLen:] // shadow",
+		New:    "\tif stats := s.opts.statsHandler; stats != nil && len(b) > headerLen {\n\t\t// TODO: raw payload stats.\n\t\tb := b[headerLen:] // shadow",
+		Expect: "SendMsg/OutPayload-on-every-success", Why: "no out-payload event for an empty reply"})
+	control(&Control{ID: "selinsert-early-wildcard", Rule: "SEL-INSERT", File: "larking/mux.go",
+		Old: "\t\t\t\trs := r.path[tag]\n", New: "\t\t\t\tif name == \"*\" {\n\t\t\t\t\tr.rules = append(r.rules, rule)\n\t\t\t\t\treturn\n\t\t\t\t}\n\t\t\t\trs := r.path[tag]\n", Expect: "rule-stored", Why: "pkg.Svc.* stored on node pkg"})
+	control(&Control{ID: "codeclookup-request-default", Rule: "CODEC-LOOKUP-TOTAL", File: "larking/http.go",
+		Old: "accept := negotiateContentType(r.Header, m.opts.contentTypeOffers, \"application/json\")", New: "accept := negotiateContentType(r.Header, m.opts.contentTypeOffers, r.Header.Get(\"Content-Type\"))", Expect: "encError/unchecked-lookup", Why: "error codec looked up under the request's own content type"})
+}
+
+func init() {
+	control(&Control{ID: "sepcheck-restore-d40", Rule: "SEP-CHECK", File: "larking/rules.go",
+		Old: "\tif toks[0].typ != tokenSlash {\n\t\treturn nil, nil, errNotFound\n\t}\n", New: "", Expect: "variables-only-after-slash", Why: "restore D40: ':' accepted where the template has '/'"})
 }
